@@ -8,7 +8,10 @@ import (
 	htlcmod "verif/sim/mods/htlc"
 	mtmod "verif/sim/mods/mt"
 	nftmod "verif/sim/mods/nft"
+	"verif/sim/mods/oraclefeed"
+	randommod "verif/sim/mods/random"
 	recordmod "verif/sim/mods/record"
+	servicemod "verif/sim/mods/service"
 	"verif/sim/mods/sys"
 	tokenmod "verif/sim/mods/token"
 )
@@ -21,6 +24,9 @@ func init() {
 	mtmod.Register()
 	recordmod.Register()
 	tokenmod.Register()
+	servicemod.Register()
+	oraclefeed.Register()
+	randommod.Register()
 	sys.Workloads = append(sys.Workloads,
 		func() engine.Module { return farmmod.New() },
 		func() engine.Module { return htlcmod.New() },
@@ -28,6 +34,9 @@ func init() {
 		func() engine.Module { return mtmod.New() },
 		func() engine.Module { return recordmod.New() },
 		func() engine.Module { return tokenmod.New() },
+		func() engine.Module { return servicemod.New() },
+		func() engine.Module { return oraclefeed.New() },
+		func() engine.Module { return randommod.New() },
 	)
 	sys.Register()
 }
